@@ -325,6 +325,10 @@ def main(argv):
         continue
       if r["errors"]:
         broken.append({"kind": "correspondence", "name": s.name, "detail": r["errors"][:3]})
+      if getattr(s, "informational", False):
+        # a stream that only measures on how many real cases the hypotheses of a theorem hold
+        notes.append(f"{s.name}: {r['checked'] - len(r['bad'])} of {r['checked']} cases satisfy {s.checker}")
+        continue
       if r["bad"]:
         i = r["bad"][0]
         broken.append({"kind": "correspondence", "name": s.name, "first_case_index": i,
